@@ -9,7 +9,7 @@ Import ListNotations.
 Open Scope string_scope.
 Open Scope list_scope.
 
-Definition chain (v : utc_variant) : list migration := [
+Definition chain_gen (lt : lonely_test) (wm : write_mode) (v : utc_variant) : list migration := [
   {| m_rev := "806f5dcb11bf"; m_down := ""; m_ops := [
       (IfSqlite, CreateTable "redun_version" [{| c_name := "id"; c_type := "VARCHAR"; c_null := false |}; {| c_name := "version"; c_type := "INTEGER"; c_null := false |}; {| c_name := "timestamp"; c_type := "DATETIME"; c_null := false |}]);
       (IfPg, CreateTable "redun_version" [{| c_name := "id"; c_type := "VARCHAR"; c_null := false |}; {| c_name := "version"; c_type := "INTEGER"; c_null := false |}; {| c_name := "timestamp"; c_type := "TIMESTAMP"; c_null := false |}]);
@@ -54,7 +54,7 @@ Definition chain (v : utc_variant) : list migration := [
       (Always, CreateIndex {| i_name := "ix_evaluation_task_hash"; i_table := "evaluation"; i_cols := ["task_hash"]; i_unique := false |});
       (Always, CreateIndex {| i_name := "ix_evaluation_value_hash"; i_table := "evaluation"; i_cols := ["value_hash"]; i_unique := false |})] |};
   {| m_rev := "30ffbaee18cd"; m_down := "647c510a77b1"; m_ops := [
-      (Always, BackfillTaskValues ["redun.script_task"; "test_gfetch"; "test_help"; "test_help_debug"])] |};
+      (Always, BackfillTaskValues lt wm ["redun.script_task"; "test_gfetch"; "test_help"; "test_help_debug"])] |};
   {| m_rev := "71ec303c90e4"; m_down := "30ffbaee18cd"; m_ops := [
       (Always, CreateIndex {| i_name := "ix_call_node_call_hash_vpo"; i_table := "call_node"; i_cols := ["call_hash"]; i_unique := true |});
       (Always, CreateIndex {| i_name := "ix_execution_id_vpo"; i_table := "execution"; i_cols := ["id"]; i_unique := true |});
@@ -103,6 +103,9 @@ Definition chain (v : utc_variant) : list migration := [
       (IfSqlite, AddColumn "execution" {| c_name := "updated_time"; c_type := "DATETIME"; c_null := true |});
       (IfPg, AddColumn "execution" {| c_name := "updated_time"; c_type := "TIMESTAMPTZ"; c_null := true |})] |}
 ].
+(** As shipped: a task is lonely when NO value row has its hash; rows are added. *)
+Definition chain (v : utc_variant) : list migration := chain_gen AnyValue AddRow v.
+
 Definition db_versions : versions := [("806f5dcb11bf", (1%Z, 0%Z)); ("647c510a77b1", (2%Z, 0%Z)); ("30ffbaee18cd", (2%Z, 1%Z)); ("71ec303c90e4", (2%Z, 2%Z)); ("d4af139b6f53", (2%Z, 3%Z)); ("cd2d53191748", (3%Z, 0%Z)); ("cc4f663817b6", (3%Z, 1%Z)); ("eb7b95e4e8bf", (3%Z, 2%Z)); ("f68b3aaee9cc", (3%Z, 3%Z)); ("3b0a6e67cc58", (3%Z, 4%Z)); ("0bee3d6dba76", (3%Z, 5%Z))].
 Definition vmin : Z * Z := (3%Z, 5%Z).
 Definition vmax : Z * Z := (3%Z, 99%Z).
